@@ -432,6 +432,13 @@ def h_ingest_lifecycle2(spec):
             allowed = [runs, launches, run, launch, pipes]
             spec.oblige(I, "frame:only-the-addressed-run-launch-and-tables-change", frame_eq(h0, h, 0, allowed))
             if meth == "_ingest_pipeline_start":
+                # the identity-bearing fields: taken from the record when it carries them, kept otherwise - whether or not an
+                # earlier record (a SER, the pipeline_end) already created the aggregate
+                for fname in ("pipeline_id", "pipeline_spec_canonical", "meta"):
+                    v_ = getv(h_in, rec, fname)
+                    old_ = fld(h0, run, fname) if known_case else NONE
+                    spec.oblige(I, f"start-record-sets-{fname}(kept-when-the-record-has-none)",
+                                z3.Implies(usable, fld(h, obj, fname) == z3.If(v_ != NONE, v_, old_)), meta={"witness": "order-dependence"})
                 both = z3.And(usable, lid != NONE, att != NONE)
                 lobj = z3.Select(dval(h, launches), lkey)
                 lp = fld(h, lobj, "pipelines")
